@@ -751,11 +751,11 @@ def observe_doc(j):
     try:
         h = Hugr.load_json(json.dumps(j))
         out = json.loads(h.to_json())
+        s_out = SerialHugr.load_json(out)             # the re-saved document must itself be a loadable document
     except WalkError:
         raise
     except Exception as ex:
         return {**o, "raised": type(ex).__name__}
-    s_out = SerialHugr.load_json(out)
     ok = True
     for (s, so), (d, do) in j["edges"]:
         if so is None:                                # written without an offset: must be a state-order link
@@ -766,3 +766,73 @@ def observe_doc(j):
     for i, n in enumerate(j["nodes"]):                # node kinds and names through the public API
         ok = ok and out["nodes"][i]["op"] == n["op"] and out["nodes"][i].get("name") == n.get("name")
     return {**o, "raised": None, "reser": walk_sdoc(s_out), "ok": bool(ok)}
+
+
+# ----------------------------------------------------------------------------- the JSON text path of a whole HUGR
+
+
+def text_trip(h):
+    """Hugr.to_json -> Hugr.load_json -> Hugr.to_json: the text written, the HUGR loaded from it, the text it writes."""
+    from hugr.hugr import Hugr
+    txt = h.to_json()
+    back = Hugr.load_json(txt)
+    return txt, back, back.to_json()
+
+
+def gen_carrier(rng):
+    """An operation term that carries one generated constant / parameter list / argument list / type, deeper than
+    gen_op makes them: the way such a term reaches a document is as an attribute of some node's operation."""
+    r = rng.random()
+    nofunc = [[], [], []]
+    if r < 0.3:
+        return ["Const", gen_val(rng, rng.choice([1, 2, 3]))]
+    if r < 0.5:
+        ps = [T.gen_param(rng, rng.choice([0, 1, 2, 3])) for _ in range(rng.choice([1, 1, 2, 3]))]
+        return ["FuncDecl", "f", [ps, nofunc]] if rng.random() < 0.5 else ["FuncDefn", "f", [], ps, []]
+    if r < 0.7:
+        return ["Custom", "op", nofunc, "", "my.ext", [T.gen_arg(rng, rng.choice([1, 2, 3])) for _ in range(rng.choice([1, 1, 2, 3]))]]
+    if r < 0.8:
+        # the unbounded / bounded nat parameter in every position a parameter can take
+        nat = ["Nat", rng.choice([None, None, 0, 5])]
+        p = rng.choice([nat, ["List", nat], ["Tuple", [["String"], nat]], ["List", ["Tuple", [nat, ["List", nat]]]]])
+        return rng.choice([["FuncDecl", "f", [[p], nofunc]], ["FuncDefn", "f", [], [p], []],
+                           ["Custom", "op", nofunc, "", "my.ext", [["V", rng.choice([0, 2]), p]]],
+                           ["LoadConst", ["Opaque", "T", "A", [["Seq", [["V", 0, p]]]], "my.ext"]],
+                           ["Call", [[p], nofunc], nofunc, [["V", 1, p]]],
+                           ["LoadFunc", [[p], nofunc], nofunc, [["V", 1, p]]]])
+    if r < 0.9:
+        # extension constants with every JSON payload shape, alone and nested
+        c = ["VExt", rng.choice(T.NAMES), T.gen_ty(rng, 1), rng.choice(JSONS + ["null", "null", "[null]", '{"v": null}']), T.gen_reqs(rng)]
+        return ["Const", rng.choice([c, ["VTuple", [c]], ["VSome", [c, ["VTrue"]]], ["VList", [c], ["Qubit"]]])]
+    t = T.gen_ty(rng, rng.choice([2, 3, 4]))
+    return rng.choice([["LoadConst", t], ["Input", [t]], ["AliasDefn", "a", t], ["Noop", t]])
+
+
+META = [None, None, {}, {"k": None}, {"name": "x", "pos": [1, None, {"a": None}]}, {"é": 1.5, "n": None}]
+
+
+def gen_jdoc(rng):
+    """A schema-valid document assembled from foreign serial operations: a module and a few children, no edges."""
+    nodes = [T.shuffle_keys(rng, {"parent": 0, "op": "Module"})]
+    for _ in range(rng.choice([1, 2, 3, 4])):
+        j = gen_jop(rng) if rng.random() < 0.5 else None
+        if j is None:
+            for _ in range(50):
+                try:
+                    s = build_op(gen_carrier(rng))._to_serial(__import__("hugr").hugr.node_port.Node(0))
+                    j = foreignise(rng, json.loads(s.model_dump_json()))
+                    break
+                except Exception:
+                    continue
+            else:
+                j = {"parent": 0, "op": "Module"}
+        nodes.append({**j, "parent": 0})
+    doc = {"version": "live", "nodes": nodes, "edges": []}
+    r = rng.random()
+    if r < 0.6:
+        doc["metadata"] = [rng.choice(META) for _ in range(rng.choice([len(nodes), len(nodes), len(nodes) - 1, 1]))]
+    elif r < 0.8:
+        doc["metadata"] = None
+    if rng.random() < 0.7:
+        doc["encoder"] = rng.choice(["hugr-rs v0.15.0", None])
+    return T.shuffle_keys(rng, doc)
